@@ -72,6 +72,17 @@ UNITS['lex'] = {
     ],
 }
 
+UNITS['tok'] = {
+    'template': 'contracts/tok.vrs',
+    'mutants': [
+        ('eoi_uses_token_count', 'let end = self.tree.tokens.end();', 'let end = self.tree.tokens.len();', ['C11.span']),
+        ('eoi_span_empty', 'end..end + 1', 'end..end', ['C11.span']),
+        ('end_is_start_of_last', 'Some((_, range)) => range.end,', 'Some((_, range)) => range.start,', ['C11.tok.end', 'C11.list.end']),
+        ('advance_stays', 'Some(id) => self.arena.next_token(id),', 'Some(id) => Some(id),', ['C11.list.advance']),
+        ('token_span_of_head', 'let (token, range) = self.arena.get(id).unwrap();', 'let (token, range) = self.arena.get(self.arena.head_token().unwrap()).unwrap();', ['C11.span', 'C11.list.token_span']),
+    ],
+}
+
 _KANI_STATUS = {'package': 'vk-status', 'harness': 'status_try_from_total_and_domain', 'bounded': False,
                 'bound': 'loop-free, full u64 domain (complete)', 'tier': 'quick', 'decode': 'raw', 'timeout': 900}
 
@@ -217,7 +228,7 @@ PROPS = {
         'not_decided': ['tokenizer+parser on arbitrary token sequences (parser out of reach)', 'single-file compile entry point, CLI, LSP load/evaluate cycle', 'stack depth under nesting <= 200', 'termination of union::reduce/substitute/resolve'],
     },
     'C11': {
-        'units': ['lex'],
+        'units': ['lex', 'tok'],
         'level': 'other',
         'obligation_prefixes': ['C11.'],
         'technique': 'Verus contract on the real tokenize: tokens and error spans are exactly the lexer\'s ranges in order (tiling), each token carries the value its source slice denotes; ordering/tiling/in-text lemmas',
@@ -225,12 +236,14 @@ PROPS = {
                       'tokens therefore tile the text without overlap on character boundaries, and each token\'s value is the source slice of its span (minus the delimiter the '
                       'conversion removes). The tree-leaf / node-span clauses need the parser and NodeRef recursion (out of reach): level other.',
         'level_note': 'Trusted: LOGOS contract, TokenList/interner shim (push appends, resolve(register(s)) == s, symbols stable), std string API contracts. '
-                      'Not decided: leaves of the syntax tree, node span = hull of leaves, spans of compiler errors, TokenList::{head,advance,token_span,end} and Context::span (closure-taking Option combinators over generational_token_list).',
+                      'generational_token_list as a list with stable distinct item tokens (unit tok); rule R8c/R8d (Option::and_then / map_or rewritten to match by their std definitions). '
+                      'Not decided: leaves of the syntax tree, node span = hull of leaves, spans of compiler errors.',
         'design_ref': 'DESIGN.md section 5, C11',
         'explanation': 'Decides clauses "tokens tile the source text in order without overlap" and "each token\'s text is the source slice of its span", plus "lexical error spans lie within the text on character boundaries". '
+                       'Unit tok adds the real TokenList (head/advance/kind/token_span/push/end/len) and Context::span: the span of a valid cursor is that token\'s range, the end-of-input span is exactly one position starting where the last token ends. '
                        'Does not decide the clauses about tree leaves and node spans.',
         'assumptions': ['LOGOS contract (logos crate behaves as documented)', 'generational_token_list keeps insertion order'],
-        'not_decided': ['leaves of the tree are exactly the non-trivia tokens of the parsed prefix', 'a node\'s span is the hull of its leaves', 'spans attached to parser / compiler diagnostics and definitions', 'end-of-input span of Context::span'],
+        'not_decided': ['leaves of the tree are exactly the non-trivia tokens of the parsed prefix', 'a node\'s span is the hull of its leaves', 'spans attached to compiler diagnostics and definitions'],
     },
     'C07': {
         'units': ['c07'],
